@@ -96,7 +96,7 @@ def lin(t) -> Lin:
             return Lin({app("*", *fs): Fraction(1)})
         if op == "Sum":
             r = Lin()
-            for a in t[2:]:
+            for a in merge_complementary(t[2:]):
                 if isinstance(a, tuple) and a and a[0] == "each":
                     r = r.add(Lin({("sumeach", a[1], a[2], norm(a[3])): Fraction(1)}))
                 else:
@@ -108,6 +108,38 @@ def lin(t) -> Lin:
             r = r.add(Lin({leaf: Fraction(c)}))
         return r
     return Lin({norm(t): Fraction(1)})
+
+
+def _negation_of(g):
+    if is_app(g, "not") or is_app(g, "Not"):
+        return g[2]
+    return app("not", g)
+
+
+def merge_complementary(args):
+    """each(L, G + [g], a) and each(L, G + [not g], b) in one sum/list are each(L, G, a if g else b)"""
+    args = list(args)
+    changed = True
+    while changed:
+        changed = False
+        for i in range(len(args)):
+            for j in range(len(args)):
+                a, b = args[i], args[j]
+                if i == j or not (isinstance(a, tuple) and a and a[0] == "each" and isinstance(b, tuple) and b and b[0] == "each"):
+                    continue
+                if a[1] != b[1] or len(a[2]) != len(b[2]):
+                    continue
+                ga, gb = list(a[2]), list(b[2])
+                diff = [(x, y) for x, y in zip(ga, gb) if x != y]
+                common = [x for x, y in zip(ga, gb) if x == y]
+                if len(diff) == 1 and _negation_of(diff[0][0]) == diff[0][1] and not (is_app(diff[0][0], "not") or is_app(diff[0][0], "Not")):
+                    merged = ("each", a[1], tuple(common), _canon(("phi", diff[0][0], a[3], b[3])))
+                    args = [x for k, x in enumerate(args) if k not in (i, j)] + [merged]
+                    changed = True
+                    break
+            if changed:
+                break
+    return args
 
 
 def lin_term_leaves(t) -> List[tuple]:
@@ -469,3 +501,60 @@ def describe_ordering(points, rank) -> str:
 def implies_on_orderings(f1, f2, points, bool_leaves=(), side=None, dont_care=None):
     """f1 => f2 on every ordering"""
     return order_type_check(app("Implies", f1, f2), TRUE, points, bool_leaves, side, dont_care)
+
+
+# ---------------------------------------------------------------------------
+# deep canonical form of arithmetic / boolean expression templates
+# ---------------------------------------------------------------------------
+def canon(t):
+    """canonical form used to compare expression templates: comparisons become canonical atoms, arithmetic becomes a
+    sorted linear form over canonical leaves, And/Or/Sum arguments are sorted, `x if c == 1 else c * x` is `c * x`.
+    canon(a) == canon(b) implies a and b denote the same function (integer semantics)."""
+    t = _norm(_alpha(t, 0))
+    return _canon(t)
+
+
+def _canon(t):
+    if not isinstance(t, tuple) or not t:
+        return t
+    k = t[0]
+    if k == "phi" and len(t) == 4:
+        g, a, b = t[1], t[2], t[3]
+        # (x if c == 1 else c * x) == c * x
+        if is_app(g, "==") and len(g) == 4 and g[3] == K(1) and is_app(b, "*") and len(b) == 4 and b[2] == g[2] and b[3] == a:
+            return _canon(b)
+        return ("phi", _canon(g), _canon(a), _canon(b))
+    if k == "app":
+        op = t[1]
+        if op in CMP_OPS and len(t) == 4 and not (is_boolish(t[2]) and op in ("==", "!=")):
+            ca = canon_atom(("app", op, _canon_leafwise(t[2]), _canon_leafwise(t[3])))
+            if ca is not None:
+                return ("catom", ca[0], _lin_key(ca[1]))
+        if op in ("+", "-", "*", "neg", "Sum"):
+            return _lin_canon(t)
+        if op in ("And", "Or"):
+            args = sorted({repr(_canon(a)): _canon(a) for a in t[2:]}.items())
+            return ("app", op) + tuple(v for _, v in args)
+        return ("app", op) + tuple(_canon(a) for a in t[2:])
+    if k == "each":
+        return ("each", tuple(_canon(l) for l in t[1]), tuple(sorted((_canon(g) for g in t[2]), key=repr)), _canon(t[3]))
+    if not isinstance(k, str):
+        return tuple(_canon(c) if isinstance(c, tuple) else c for c in t)
+    return (k,) + tuple(_canon(c) if isinstance(c, tuple) else c for c in t[1:])
+
+
+def _canon_leafwise(t):
+    """arithmetic structure kept (lin() will flatten it), non arithmetic leaves canonicalised"""
+    if is_app(t) and t[1] in ("+", "-", "*", "neg", "Sum"):
+        return ("app", t[1]) + tuple(_canon_leafwise(a) for a in t[2:])
+    if isinstance(t, tuple) and t and t[0] == "each":
+        return ("each", t[1], tuple(sorted((_canon(g) for g in t[2]), key=repr)), _canon(t[3]))
+    return _canon(t)
+
+
+def _lin_key(l: Lin):
+    return (tuple(sorted(((repr(leaf), str(c)) for leaf, c in l.coef.items()))), str(l.const))
+
+
+def _lin_canon(t):
+    return ("clin",) + _lin_key(lin(_canon_leafwise(t)))
